@@ -53,6 +53,14 @@ class EntryCounter:
                 pass
 
 
+class HasFormat:
+    """A non-Tensor that happens to have a `format` attribute (like a scipy.sparse matrix)."""
+
+    format = "csr"
+    order = 1
+    dimensions = (2,)
+
+
 def dense_tensor(dims, fmt, base):
     from ..rt import tensor_from_structure
 
@@ -190,7 +198,10 @@ def work(unit):
     for what, kw in (
         [(f"missing:{n}", {k: v for k, v in base.items() if k != n}) for n in ops]
         + [("extra:zz", {**base, "zz": next(iter(base.values()))})]
-        + [(f"type:{n} is {label}", {**base, n: bad}) for n in ops for bad, label in ((None, "None"), (3.0, "float"))]
+        + [(f"type:{n} is {label}", {**base, n: bad}) for n in ops
+           for bad, label in ((None, "None"), (3.0, "float"), ("ds", "str"), (Tensor, "the Tensor class"),
+                              (HasFormat(), "foreign object with a format attribute"), ([1.0], "list"),
+                              (base[n].cffi_tensor, "cffi struct"))]
         + [(f"order:{n}", {**base, n: dense_tensor([2] * (orders[n] + 1), all_formats(orders[n] + 1)[0], 1.0)[0]}) for n in ops]
     ):
         calls += 1
